@@ -140,7 +140,8 @@ Record tree_ok (ps : pseudo) : Prop := mkTree {
   t_sorted : forall j pn, aget j (ps_inodes ps) = Some pn -> ssorted (pi_children pn);
   t_exact : forall j pn, aget j (ps_inodes ps) = Some pn -> forall i nm,
       In (i, nm) (pi_children pn) <->
-      (i <> ROOT_ID /\ exists pi, aget i (ps_inodes ps) = Some pi /\ pi_parent pi = j /\ pi_name pi = nm) }.
+      (i <> ROOT_ID /\ exists pi, aget i (ps_inodes ps) = Some pi /\ pi_parent pi = j /\ pi_name pi = nm);
+  t_names : forall j pn, aget j (ps_inodes ps) = Some pn -> NoDup (map snd (pi_children pn)) }.
 
 (* children of j in the original = what the reconstruction appends to j *)
 Lemma children_are_kids ps j pn : tree_ok ps -> aget j (ps_inodes ps) = Some pn ->
@@ -228,6 +229,13 @@ Proof.
   - intros j pn. cbn. destruct (j =? ROOT_ID) eqn:Ej; [|discriminate]. intros H. inversion H. cbn [pi_children].
     intros i nm. split; [intros []|]. intros (Hne & pi & Hg & Hp & _). cbn in Hg.
     destruct (i =? ROOT_ID) eqn:Ei; [apply N.eqb_eq in Ei; contradiction|discriminate].
+  - intros j pn. cbn. destruct (j =? ROOT_ID); [|discriminate]. intros H. inversion H. constructor.
+Qed.
+
+Lemma find_child_none k : forall cs, find_child k cs = None -> ~ In k (map snd cs).
+Proof.
+  induction cs as [|[i n] r IH]; intros H; [intros []|]. cbn [find_child] in H. destruct (n =? k) eqn:E; [discriminate|].
+  apply N.eqb_neq in E. cbn [map snd In]. intros [Hc | Hc]; [contradiction|exact (IH H Hc)].
 Qed.
 
 Lemma ssorted_snoc : forall l x, ssorted l -> (forall y, In y l -> fst y < fst x) -> ssorted (l ++ [x]).
@@ -236,6 +244,14 @@ Proof.
   destruct S as [Ha Sr]. cbn [app ssorted]. split.
   - intros y Hy. apply in_app_or in Hy. destruct Hy as [Hy | [<- | []]]; [apply Ha; exact Hy|apply H; left; reflexivity].
   - apply IH; [exact Sr|]. intros y Hy. apply H. right. exact Hy.
+Qed.
+
+Lemma NoDup_app_snoc {A} (l : list A) x : NoDup l -> ~ In x l -> NoDup (l ++ [x]).
+Proof.
+  induction l as [|a r IH]; intros ND Hn; [cbn; constructor; [intros []|constructor]|].
+  inversion ND as [|? ? Ha ND']; subst. cbn [app]. constructor.
+  - intros H. apply in_app_or in H. destruct H as [H | [H | []]]; [contradiction|]. apply Hn. left. symmetry. exact H.
+  - apply IH; [exact ND'|]. intros H. apply Hn. right. exact H.
 Qed.
 
 Lemma create_tree s cur pn k s1 ino : tree_ok s -> keys_lt s -> ps_next s < two56 ->
@@ -306,6 +322,117 @@ Proof.
       * intros (Hn1 & pi & Hg & Hp & Hnm). destruct (PN i pi Hg) as [[-> ->] | (Hni2 & po2 & Ho2 & Hpp & Hnn & _)].
         -- cbn in Hp, Hnm. right. auto.
         -- left. split; [exact Hn1|]. exists po2. rewrite <- Hpp, <- Hnn. auto.
+  - intros j pj Hj. destruct (PN j pj Hj) as [[-> ->] | (Hni & po & Ho & _ & _ & Hoth & Hcu)]; [constructor|].
+    destruct (N.eq_dec j cur) as [-> | Hjc].
+    + rewrite (Hcu eq_refl). cbn [pi_children pn']. rewrite Hcur in Ho. inversion Ho; subst po.
+      rewrite map_app. cbn [map snd]. apply NoDup_app_snoc; [exact (t_names s T cur pn Hcur)|apply find_child_none; exact Hnf].
+    + rewrite (Hoth Hjc). exact (t_names s T j po Ho).
+Qed.
+
+(* ---------- evicting a pseudo directory that has no children ---------- *)
+Lemma rfn_spec : forall cs nm ino, NoDup (map snd cs) -> In (ino, nm) cs ->
+  exists cs', remove_first_named nm cs = Some cs' /\ (forall x, In x cs' <-> In x cs /\ x <> (ino, nm)).
+Proof.
+  induction cs as [|[i n] r IH]; intros nm ino ND Hin; [destruct Hin|].
+  inversion ND as [|? ? Hnin ND']; subst. cbn [remove_first_named]. destruct (n =? nm) eqn:E.
+  - apply N.eqb_eq in E. subst n.
+    assert (Hhead : (i, nm) = (ino, nm)).
+    { destruct Hin as [H | H]; [exact H|]. exfalso. apply Hnin. change nm with (snd (ino, nm)). apply in_map. exact H. }
+    inversion Hhead; subst i. exists r. split; [reflexivity|]. intros x. split.
+    + intros Hx. split; [right; exact Hx|]. intros ->. apply Hnin. change nm with (snd (ino, nm)). apply in_map. exact Hx.
+    + intros [[Hx | Hx] Hne]; [symmetry in Hx; contradiction|exact Hx].
+  - apply N.eqb_neq in E. destruct Hin as [H | H]; [inversion H; contradiction|].
+    destruct (IH nm ino ND' H) as (r' & Er & Hr). rewrite Er. exists ((i, n) :: r'). split; [reflexivity|].
+    intros x. cbn [In]. rewrite Hr. split.
+    + intros [Hx | [Hx Hne]]; [split; [left; exact Hx|]|split; [right; exact Hx|exact Hne]].
+      subst x. intros Hc. inversion Hc. contradiction.
+    + intros [[Hx | Hx] Hne]; [left; exact Hx|right; split; assumption].
+Qed.
+
+Lemma rfn_keeps : forall cs nm cs', remove_first_named nm cs = Some cs' ->
+  (ssorted cs -> ssorted cs') /\ (NoDup (map snd cs) -> NoDup (map snd cs')).
+Proof.
+  induction cs as [|[i n] r IH]; intros nm cs' H; [discriminate|]. cbn [remove_first_named] in H.
+  destruct (n =? nm).
+  - inversion H; subst. split; [intros [_ S]; exact S|intros ND; inversion ND; assumption].
+  - destruct (remove_first_named nm r) as [r'|] eqn:Er; [|discriminate]. inversion H; subst cs'.
+    destruct (IH nm r' Er) as (A & B). split.
+    + intros [Hx S]. cbn [ssorted]. split; [|exact (A S)]. intros y Hy. apply Hx. eapply remove_first_named_sub; eassumption.
+    + intros ND. inversion ND as [|? ? Hnin ND']; subst. cbn [map snd]. constructor; [|exact (B ND')].
+      intros Hc. apply Hnin. rewrite in_map_iff in *. destruct Hc as (x & Ex & Hx). exists x. split; [exact Ex|].
+      eapply remove_first_named_sub; eassumption.
+Qed.
+
+Lemma evict_tree s ino pn s' : tree_ok s -> aget ino (ps_inodes s) = Some pn -> pi_children pn = [] ->
+  ps_evict s ino = Ok s' -> tree_ok s'.
+Proof.
+  intros T Hino Hleaf. unfold ps_evict. rewrite Hino.
+  destruct (ino =? pi_parent pn) eqn:Eroot; [intros H; inversion H; subst; exact T|].
+  apply N.eqb_neq in Eroot.
+  destruct (aget (pi_parent pn) (ps_inodes s)) as [par|] eqn:Hpar; [|discriminate].
+  assert (Hino1 : ino <> ROOT_ID).
+  { intros ->. destruct (t_root s T) as (cs & Hr). rewrite Hr in Hino. inversion Hino; subst pn. cbn in Eroot. contradiction. }
+  assert (Hchild : In (ino, pi_name pn) (pi_children par)).
+  { apply (t_exact s T _ par Hpar). split; [exact Hino1|]. exists pn. auto. }
+  destruct (rfn_spec _ _ _ (t_names s T _ par Hpar) Hchild) as (cs & Er & Hcs). rewrite Er.
+  destruct (rfn_keeps _ _ _ Er) as (Ksorted & Knames).
+  set (par' := mkPi (pi_parent par) (pi_name par) cs).
+  remember (aset (pi_parent pn) par' (ps_inodes s)) as tbl eqn:Et.
+  intros H. inversion H; subst s'. clear H.
+  assert (G : forall j, aget j (adel ino tbl) = if j =? ino then None else if j =? pi_parent pn then Some par' else aget j (ps_inodes s)).
+  { intros j. rewrite aget_adel. destruct (j =? ino); [reflexivity|]. subst tbl. rewrite aget_aset. reflexivity. }
+  (* nobody has the evicted directory as parent *)
+  assert (Nochild : forall i pi, aget i (ps_inodes s) = Some pi -> i <> ROOT_ID -> pi_parent pi <> ino).
+  { intros i pi Hi Hn1 Hp. assert (Hc : In (i, pi_name pi) (pi_children pn)) by (apply (t_exact s T ino pn Hino); split; [exact Hn1|]; exists pi; auto).
+    rewrite Hleaf in Hc. destruct Hc. }
+  assert (PN : forall i pi, aget i (adel ino tbl) = Some pi -> i <> ino /\
+             exists po, aget i (ps_inodes s) = Some po /\ pi_parent pi = pi_parent po /\ pi_name pi = pi_name po /\
+                        (i <> pi_parent pn -> pi = po) /\ (i = pi_parent pn -> pi = par')).
+  { intros i pi. rewrite G. destruct (i =? ino) eqn:E1; [discriminate|]. apply N.eqb_neq in E1.
+    destruct (i =? pi_parent pn) eqn:E2.
+    - apply N.eqb_eq in E2. subst i. intros Hx. inversion Hx; subst pi. split; [exact E1|]. exists par. cbn. repeat split; try reflexivity; try assumption. intros Hc; contradiction.
+    - apply N.eqb_neq in E2. intros Hx. split; [exact E1|]. exists pi. repeat split; try assumption; try reflexivity. intros Hc; contradiction. }
+  constructor; cbn [ps_inodes].
+  - apply adel_nodup. subst tbl. apply aset_nodup. exact (t_nodup s T).
+  - destruct (t_root s T) as (cs0 & Hr). rewrite G. assert (E1 : ROOT_ID =? ino = false) by (apply N.eqb_neq; congruence). rewrite E1.
+    destruct (ROOT_ID =? pi_parent pn) eqn:E2; [|exists cs0; exact Hr].
+    apply N.eqb_eq in E2. rewrite <- E2 in Hpar. rewrite Hr in Hpar. inversion Hpar; subst par. eexists. reflexivity.
+  - intros i pi Hi. destruct (PN i pi Hi) as (Hni & po & Ho & Hp & _). rewrite Hp, G.
+    pose proof (t_parent s T i po Ho) as Hex.
+    destruct (pi_parent po =? ino) eqn:E1.
+    + exfalso. apply N.eqb_eq in E1. destruct (N.eq_dec i ROOT_ID) as [-> | Hn1].
+      * destruct (t_root s T) as (cs0 & Hr). rewrite Hr in Ho. inversion Ho; subst po. cbn in E1. congruence.
+      * exact (Nochild i po Ho Hn1 E1).
+    + destruct (pi_parent po =? pi_parent pn); [discriminate|exact Hex].
+  - intros j pj Hj. destruct (PN j pj Hj) as (Hni & po & Ho & _ & _ & Hoth & Hcu).
+    destruct (N.eq_dec j (pi_parent pn)) as [-> | Hjc].
+    + rewrite (Hcu eq_refl). cbn [pi_children par']. apply Ksorted. exact (t_sorted s T _ par Hpar).
+    + rewrite (Hoth Hjc). exact (t_sorted s T j po Ho).
+  - intros j pj Hj i nm. destruct (PN j pj Hj) as (Hnj & po & Ho & _ & _ & Hoth & Hcu).
+    assert (Hold : In (i, nm) (pi_children po) <->
+                   i <> ROOT_ID /\ exists pi, aget i (ps_inodes s) = Some pi /\ pi_parent pi = j /\ pi_name pi = nm)
+      by (apply (t_exact s T j po Ho)).
+    assert (Hchildren : In (i, nm) (pi_children pj) <-> In (i, nm) (pi_children po) /\ (i, nm) <> (ino, pi_name pn)).
+    { destruct (N.eq_dec j (pi_parent pn)) as [-> | Hjc].
+      - rewrite (Hcu eq_refl). cbn [pi_children par']. rewrite Hpar in Ho. inversion Ho; subst po. apply Hcs.
+      - rewrite (Hoth Hjc). split; [|intros [H _]; exact H]. intros Hc. split; [exact Hc|]. intros Heq. inversion Heq; subst i nm.
+        apply Hold in Hc. destruct Hc as (_ & pi & Hg & Hp & _). rewrite Hino in Hg. inversion Hg; subst pi. congruence. }
+    rewrite Hchildren, Hold. split.
+    + intros [(Hn1 & pi & Hg & Hp & Hnm) Hne]. split; [exact Hn1|].
+      assert (Hi_ino : i <> ino).
+      { intros ->. rewrite Hino in Hg. inversion Hg; subst pi. apply Hne. rewrite Hnm. reflexivity. }
+      destruct (N.eq_dec i (pi_parent pn)) as [-> | Hic].
+      * exists par'. rewrite G. assert (E1 : pi_parent pn =? ino = false) by (apply N.eqb_neq; congruence).
+        rewrite E1, N.eqb_refl. rewrite Hpar in Hg. inversion Hg; subst pi. cbn. auto.
+      * exists pi. rewrite G. assert (E1 : i =? ino = false) by (apply N.eqb_neq; exact Hi_ino).
+        assert (E2 : i =? pi_parent pn = false) by (apply N.eqb_neq; exact Hic). rewrite E1, E2. auto.
+    + intros (Hn1 & pi & Hg & Hp & Hnm). destruct (PN i pi Hg) as (Hni & po2 & Ho2 & Hpp & Hnn & _).
+      split; [split; [exact Hn1|]; exists po2; rewrite <- Hpp, <- Hnn; auto|].
+      intros Heq. inversion Heq. contradiction.
+  - intros j pj Hj. destruct (PN j pj Hj) as (Hnj & po & Ho & _ & _ & Hoth & Hcu).
+    destruct (N.eq_dec j (pi_parent pn)) as [-> | Hjc].
+    + rewrite (Hcu eq_refl). cbn [pi_children par']. apply Knames. exact (t_names s T _ par Hpar).
+    + rewrite (Hoth Hjc). exact (t_names s T j po Ho).
 Qed.
 
 Lemma mount_walk_tree : forall cs s cur s' i, tree_ok s -> keys_lt s -> ps_next s + N.of_nat (length cs) <= two56 ->
@@ -427,4 +554,74 @@ Proof.
   exists ex_two. split.
   - unfold ex_two. eapply K_mount; [eapply K_mount; [apply K_new| |apply triple_eta]| |apply triple_eta]; vm_compute; discriminate.
   - vm_compute. discriminate.
+Qed.
+
+(* ---------- the same with remove_pseudo_root, as long as an evicted mount point has no pseudo children
+   (i.e. no mount path runs through another mount point: nested mounts are unsupported by the Vfs) ---------- *)
+Definition evicts_leaf (s : vfs) (p : path) : Prop :=
+  v_rm s = true -> forall inode pn, ps_path_walk (v_ps s) p = Ok (Some inode) -> aget inode (v_mps s) <> None ->
+    aget inode (ps_inodes (v_ps s)) = Some pn -> pi_children pn = [].
+
+Inductive lreach : vfs -> Prop :=
+| L_new : forall o rm, lreach (vfs_new o rm)
+| L_mount : forall s bid p map a s' r evs, lreach s ->
+    ps_next (v_ps s) + N.of_nat (length (p_comps p)) <= two56 ->
+    vfs_mount s bid p map a = (s', r, evs) -> lreach s'
+| L_umount : forall s p s' r evs, lreach s -> evicts_leaf s p -> vfs_umount s p = (s', r, evs) -> lreach s'
+| L_init : forall s o e s' r evs, lreach s -> vfs_init s o e = (s', r, evs) -> lreach s'
+| L_destroy : forall s s' evs, lreach s -> vfs_destroy s = (s', evs) -> lreach s'.
+
+Theorem lreach_tree s : lreach s -> tree_ok (v_ps s) /\ ps_ok (v_ps s).
+Proof.
+  induction 1 as [o rm| s bid p map a s' r evs _ IH Hb Hm | s p s' r evs _ IH Hl Hu | s o e s' r evs _ IH Hi | s s' evs _ IH Hd].
+  - cbn. split; [apply tree_new|apply ps_ok_new].
+  - destruct IH as (T & OK). pose proof OK as (KL & _ & _). unfold vfs_mount in Hm.
+    destruct (negb (ma_err a =? 0)); [inversion Hm; subst; auto|].
+    destruct (VFS_MAX_INO <? ma_max a); [inversion Hm; subst; auto|].
+    destruct (v_init s && negb (ma_init_err a =? 0)); [inversion Hm; subst; auto|].
+    destruct (allocate_fs_idx s) as [[i| |] nx]; try (inversion Hm; subst; cbn; auto).
+    set (s2 := match map with Some m => with_maps (with_next s nx) (aset i m (v_maps (with_next s nx))) | None => with_next s nx end) in *.
+    assert (Hps : v_ps s2 = v_ps s) by (unfold s2; destruct map; reflexivity).
+    destruct (insert_mount s2 bid (root_entry_of a) i p) as [s3 r3] eqn:Ei.
+    destruct (insert_mount_tree s2 bid (root_entry_of a) i p s3 r3) as (T3 & _ & _); try (rewrite Hps; assumption); [exact Ei|].
+    assert (OK3 : ps_ok (v_ps s3)) by (eapply insert_mount_ps; [rewrite Hps; exact OK|rewrite Hps; exact Hb|exact Ei]).
+    destruct r3; inversion Hm; subst; auto.
+  - destruct IH as (T & OK). unfold vfs_umount in Hu. unfold evicts_leaf in Hl.
+    destruct (ps_path_walk (v_ps s) p) as [[inode|]| |] eqn:Ew; try (inversion Hu; subst; auto).
+    destruct (ps_parent (v_ps s) inode) eqn:Epar; try (inversion Hu; subst; auto).
+    destruct (aget inode (v_mps s)) eqn:Em; try (inversion Hu; subst; auto).
+    destruct (v_rm s) eqn:Erm.
+    + destruct (ps_evict (v_ps s) inode) as [ps'| |] eqn:Ee; try (inversion Hu; subst; auto).
+      inversion Hu; subst. cbn [v_ps]. split; [|eapply evict_ok; eassumption].
+      unfold ps_parent in Epar. destruct (aget inode (ps_inodes (v_ps s))) as [pn|] eqn:Hpn; [|discriminate].
+      eapply evict_tree; try eassumption. apply (Hl eq_refl inode pn eq_refl); [congruence|exact Hpn].
+    + inversion Hu; subst. cbn [v_ps]. auto.
+  - pose proof (vfs_init_ps s o e) as E. rewrite Hi in E. cbn [fst] in E. rewrite E. exact IH.
+  - pose proof (vfs_destroy_ps s) as E. rewrite Hd in E. cbn [fst] in E. rewrite E. exact IH.
+Qed.
+
+Theorem vfs_pseudo_roundtrip_rm : forall s o rm, lreach s ->
+  exists t', vfs_restore (vfs_new o rm) (vfs_save s) = (t', Ok tt) /\
+             same_table (v_ps t') (v_ps s) /\ ps_next (v_ps t') = ps_next (v_ps s) /\ v_next t' = v_next s.
+Proof.
+  intros s o rm L. destruct (lreach_tree s L) as (T & _).
+  destruct (pseudo_roundtrip (v_ps s) (vfs_save s) T eq_refl eq_refl) as (ps' & Er & Hn & Hs).
+  unfold vfs_restore. cbn [v_ps vfs_new]. rewrite Er. eexists. split; [reflexivity|].
+  cbn [with_ps v_ps v_next]. repeat split; assumption.
+Qed.
+
+(* non-vacuity: mount /n1, umount it with remove_pseudo_root (evicting the leaf), mount /n2/n3 *)
+Definition ex_rm : vfs :=
+  let s0 := vfs_new default_opts true in
+  let s1 := fst (fst (vfs_mount s0 10 (mkPath true [CNorm 1]) None (mkMA 0 1 0 0 0 1000 0))) in
+  let s2 := fst (fst (vfs_umount s1 (mkPath true [CNorm 1]))) in
+  fst (fst (vfs_mount s2 11 (mkPath true [CNorm 2; CNorm 3]) None (mkMA 0 1 0 0 0 1000 0))).
+Lemma ex_lreach : lreach ex_rm /\ aget 2 (ps_inodes (v_ps ex_rm)) = None /\ aget 4 (ps_inodes (v_ps ex_rm)) <> None.
+Proof.
+  split.
+  - unfold ex_rm. eapply L_mount; [eapply L_umount; [eapply L_mount; [apply L_new| |apply triple_eta]| |apply triple_eta]| |apply triple_eta].
+    + vm_compute. discriminate.
+    + intros _ inode pn Hw _ Hp. vm_compute in Hw. inversion Hw; subst inode. vm_compute in Hp. inversion Hp. reflexivity.
+    + vm_compute. discriminate.
+  - vm_compute. split; [reflexivity|discriminate].
 Qed.
